@@ -321,6 +321,7 @@ def exampleJumps : SStmt :=
     (.seq (.marker 12) (.seq (.label 2 (.marker 13)) (.seq (.ifte 14 (.goto_ 1) .skip) .skip)))))
 
 example : (parseFn 0 exampleJumps).toBool = true ∧ validG exampleJumps = true ∧ hasGotoVal exampleJumps = true ∧
+    (match parseFn 0 exampleJumps with | .ok (st, _) => decide ((genFn st 1).length < 2 ^ 64) | .error _ => false) = true ∧
     structured exampleJumps = false ∧
     execG (fun i => [3, 1, 1, 0, 0, 1, 7, 0, 1, 1, 0].getD i 0) 200 exampleJumps ⟨0, []⟩ =
       .done .normal ⟨15, [.m 4, .inp 5, .m 8, .m 9, .c 10, .m 6, .c 7, .m 8, .m 9, .c 10, .c 11, .m 2, .c 1, .m 3, .m 4,
